@@ -174,6 +174,22 @@ class ChildWorld:
         return LibRDEngine(ctypes.CDLL(self.libpath), option=kind, description="rdsim",
                            requires_molecules=(kind != "euler"))
 
+    def poison(self, byte):
+        libc = ctypes.CDLL(None)
+        libc.malloc.restype = ctypes.c_void_p
+        libc.malloc.argtypes = [ctypes.c_size_t]
+        libc.free.argtypes = [ctypes.c_void_p]
+        libc.memset.argtypes = [ctypes.c_void_p, ctypes.c_int, ctypes.c_size_t]
+        blocks = []
+        for size in list(range(16, 2048, 16)) + [4096, 8192, 16384]:
+            for _ in range(8):
+                p = libc.malloc(size)
+                if p:
+                    libc.memset(p, byte, size)
+                    blocks.append(p)
+        for p in blocks:
+            libc.free(p)
+
     # ---- observation through the exported getters (side-effect freedom is itself checked by C08 twins)
     def observe(self):
         lib = self.lib
@@ -322,6 +338,10 @@ class ChildWorld:
             self.scripts.pop(sidx, None)
         elif name == "gc":
             gc.collect()
+        elif name == "poison":
+            # F11 for non-sanitizer builds: recycle heap chunks of many size classes filled with a chosen byte, so that
+            # a read of uninitialised heap by the next `new` objects becomes a deterministic function of the case
+            self.poison(int(op[1]))
         else:
             raise ValueError("unknown op " + name)
         return ev
